@@ -110,6 +110,12 @@ def base_obligations(ctx, clean):
         if not closed:
             ctx.axioms[name] = txt
         ctx.obligation(f"theorem {name}", closed, txt if not closed else "")
+    if clean:
+        ok, summ, dt = coqrun.clean_rebuild_and_chk(ctx.pid)
+        ctx.extra["coqchk"] = summ
+        ctx.extra["clean_build_and_coqchk_s"] = round(dt, 1)
+        no_axioms = ok and "Axioms: <none>" in summ and "type-in-type: <none>" in summ and "unsafe (co)fixpoints: <none>" in summ and "positivity is assumed: <none>" in summ
+        ctx.obligation("from-clean rebuild in a scratch copy + coqchk -o: no axioms, no unsafe flags", no_axioms, summ[-800:] if not no_axioms else "")
 
 
 def finish(ctx):
